@@ -378,7 +378,10 @@ def r4(ctx):
         if isinstance(incv, ast.Name):
             dd_ = [s_.value for s_ in walk_no_nested(f) if isinstance(s_, ast.Assign) and len(s_.targets) == 1 and src(s_.targets[0]) == incv.id and "['increment']" in src(s_.value)]
             incv = dd_[0] if dd_ else incv
-        okc = len(aug) == 1 and "['increment']" in src(incv) and st in names_in(aug[0].target) and en in names_in(aug[0].target)
+        # the window may reach the table key through copies made inside the loop (`start = bin_start`)
+        copies = {src(s_.targets[0]): s_.value.id for s_ in walk_no_nested(l) if isinstance(s_, ast.Assign) and len(s_.targets) == 1 and isinstance(s_.targets[0], ast.Name) and isinstance(s_.value, ast.Name)}
+        tnames = {copies.get(n_, n_) for n_ in names_in(aug[0].target)} if aug else set()
+        okc = len(aug) == 1 and "['increment']" in src(incv) and st in tnames and en in tnames
         ctx.emit('C10-R4', okc, COUNTTABLE, l, 'each accepted window receives the weight once per sample: ' + (src(aug[0]) if aug else 'no increment found'),
                  key='one-increment-per-window')
     g = ctx.fn(COUNTTABLE, 'create_count_table')
@@ -406,7 +409,10 @@ def r6(ctx):
     g = ctx.fn(COUNTTABLE, 'create_count_table')
     # (a) contig lengths per file
     stores = [s_ for s_ in walk_no_nested(g) if isinstance(s_, ast.Assign) and any(src(t_) == 'args.ref_lengths' for t_ in s_.targets)]
-    floops = [l for l in walk_no_nested(g) if isinstance(l, ast.For) and 'alignmentfiles' in src(l.iter) and any(isinstance(c, ast.Call) and (dotted(c.func) or '').endswith('assignReads') for c in ast.walk(l))]      # also through a closure defined in the loop
+    # (assignReads may be reached through a closure of create_count_table, defined inside or before the loop)
+    closures = {d_.name for d_ in ast.walk(g) if isinstance(d_, ast.FunctionDef) and d_ is not g and any(isinstance(c, ast.Call) and (dotted(c.func) or '').endswith('assignReads') for c in ast.walk(d_))}
+    floops = [l for l in walk_no_nested(g) if isinstance(l, ast.For) and 'alignmentfiles' in src(l.iter)
+              and any(isinstance(c, ast.Call) and ((dotted(c.func) or '').endswith('assignReads') or (isinstance(c.func, ast.Name) and c.func.id in closures)) for c in ast.walk(l))]
     ok = bool(stores) and len(floops) == 1
     why = 'args.ref_lengths is never set' if not stores else 'loop over the alignment files that calls assignReads not found'
     if ok:
